@@ -4,6 +4,7 @@ import (
 	"fmt"
 	"math/big"
 	"math/bits"
+	"slices"
 	"strconv"
 	"strings"
 )
@@ -38,12 +39,16 @@ func bigIntToBytes(value *big.Int, padding int) (b []byte, padVal byte, padLen i
 }
 
 func bytesToBigInt(v []byte) *big.Int {
+	if len(v) == 0 {
+		return big.NewInt(0)
+	}
 	if bits.LeadingZeros8(v[0]) > 0 {
 		// Positive integer
 		bv := big.NewInt(0).SetBytes(v)
 		return bv
 	}
-	// Negative integer
+	// Negative integer. Work on a copy: the input buffer belongs to the caller.
+	v = slices.Clone(v)
 	bv := big.NewInt(0)
 	carry := byte(1)
 	for i := len(v) - 1; i >= 0; i-- {
